@@ -219,7 +219,7 @@ CHECKS = {
                 "For every response reported as SearchExecutionPath::CacheHit: (1) provenance -- some mirrored result with the same scope, requested k >= k, a query at least threshold-similar and an identical k-prefix must exist "
                 "(else: foreign scope, larger-k reuse, fabricated); (2) freshness w.r.t. the most recent such entry -- since it was stored no returned id was deleted, overwritten, metadata-updated or bulk-loaded, no bulk load "
                 "happened, and no vector was written (or repaired into the canonical store by a drain) whose distance to the entry's query is strictly inside the entry's boundary. evaluations = responses judged (hits and misses). distinct_nontrivial as C06.",
-        "assumptions": ["similarity hits (threshold < 1, or parallel queries at threshold 1) serve another query's list by design and are judged relative to the served entry", "the searcher/writer interleaving clause is covered by the schedule-level check only for the engine paths exercised in C05/C08 programs"],
+        "assumptions": ["similarity hits (threshold < 1, or parallel queries at threshold 1) serve another query's list by design and are judged relative to the served entry", "the searcher/writer race rows drive knn_search_with_ef_detailed_scoped against one writer thread (a quarter of the programs with a crowded neighbourhood of tombstones next to the query); the timed and batch entry points are raced only in C08's programs (no cache oracle there)"],
         "expected_probes": ["path_cache_hit", "drift_repaired_into_canonical_store", "slow_tier_thread_stalled"],
         "tiers": {"quick": {"runs_per_worker": 1000000, "budget_s": 35}, "thorough": {"runs_per_worker": 10000000, "budget_s": 600}},
         "level_text": "Seeded exploration of search/write histories; every cache hit is decided exactly against a mirror of storable results and the write log.",
